@@ -31,6 +31,9 @@ def run(ctx, replay=None):
         elif replay.get("kind") == "sim":
             import tuner_sim
             tuner_sim.run_sim(ctx, [replay], prop="C12")
+        elif replay.get("kind") == "local":
+            import tuner_local
+            tuner_local.run_local(ctx, [replay])
         else:
             tc.scripted_runs(ctx, [replay], tc.check_c12, "C12")
         return
@@ -44,3 +47,7 @@ def run(ctx, replay=None):
     # simulated time by the callback) with the other fields; the user's criterion is re-evaluated independently
     import tuner_sim
     tuner_sim.run_sim(ctx, None, prop="C12")
+    # stream (d): the real LocalBackend with real processes: pause at the job's exit -> resume -> run() ends while
+    # the resumed job runs; afterwards every subprocess must be dead
+    import tuner_local
+    tuner_local.run_local(ctx, None)
